@@ -17,7 +17,11 @@ NOTES = (
     "CBMC process per harness instance (memory and wall caps), requires the kani::cover! reachability witnesses to be satisfied, "
     "extracts any counterexample with Kani's concrete playback, replays it natively against the real code and only then prints "
     "VIOLATION. Exit 2 = inconclusive (timeout, out of memory, vacuous harness, non-replaying counterexample), never reported "
-    "as success. Properties whose code only runs inside a Shuttle execution (ExecutionState + primitives) are not applicable: "
+    "as success. When the solver gives no usable counterexample (playback mismatch, or memory/time/unwinding exhausted on a changed "
+    "tree) the same harness is run natively on random inputs against the real code; a failure found that way is reported as the "
+    "violation and marked `found_by` in the replay file; a pass is only ever the solver's verdict. Three harness families end the "
+    "solver's path at the entry of a stage that cannot be encoded (bitvec, the task-table walk) after asserting what must hold "
+    "there ('cuts', DESIGN.md 2.4); the stub is listed in the assumptions of their evidence. Properties whose code only runs inside a Shuttle execution (ExecutionState + primitives) are not applicable: "
     "the measured reasons are in DESIGN.md 2.1 and in each not_applicable entry."
 )
 
